@@ -169,6 +169,10 @@ def run(tier: str, seed: int) -> int:
                 cases.append({"seed": seed * 1_000_003 + k, "pattern": list(pat), "npairs_zero": z})
                 k += 1
     cases += [{"seed": seed * 1_000_003 + k + i, "twin": (i // 2) if i % 2 == 0 else None} for i in range(nrand)]
+    # larger dimensions (33 .. 90): a shortcut that is exact for small n (a partial sort, a block size, a reduction over the wrong axis of a
+    # small square array) shows only here
+    nbig = 150 if tier == "quick" else 3000
+    cases += [{"seed": seed * 1_000_003 + 2_900_000 + i, "n": 33 + (i * 7) % 58, "pinned": i % 2 == 1} for i in range(nbig)]
     ntie = 3000 if tier == "quick" else 60000
     cases += [{"seed": seed * 1_000_003 + 900_000 + i, "tie": True, "n": 3 + i % 4} for i in range(ntie)]
     npin = 2000 if tier == "quick" else 30000
@@ -177,7 +181,7 @@ def run(tier: str, seed: int) -> int:
         PROP, "harness.props.c08", THEOREMS, MODULES, cases, tier, seed,
         rule=f"structural enumeration: every combination per variable of position (lb/ub/interior) x gradient sign (-/0/+) x bound kind "
              f"(both/lower/upper/none) for n <= {nmax} (exhaustive for n <= 2, sampled above), with empty and non-empty memory, plus "
-             f"{nrand} random inputs n <= 10, 0..8 pairs; output compared with a brute-force first-local-minimiser over the sorted segments "
+             f"{nrand} random inputs n <= 10, 0..8 pairs, {nbig} of dimension 33..90 (half of them with every moving variable reaching its bound early: dozens of breakpoints before the minimiser); output compared with a brute-force first-local-minimiser over the sorted segments "
              "with the dense matrix, pinned-on-bound and auxiliary-vector clauses, and with the Lean Float model of the routine; half of the random inputs "
              "also in other units (objective and variables rescaled by powers of two between 2^-90 and 2^40): the output must be the rescaled one",
         assumptions=["comparisons use a tolerance 1e-7·cond(B); decision ties (|q'| or |Δt - segment| relatively below 1e-7) are skipped and counted"])
